@@ -3,7 +3,7 @@ import re
 
 from engine.util import *
 from rules.rfs import *
-from rules.c06 import pattern_templates, name_pattern, regex_patterns
+from rules.c06 import pattern_templates, name_pattern, regex_patterns, single_pass
 
 LEVEL = "other"
 MIN_OBLIGATIONS = 22
@@ -93,6 +93,23 @@ def name_scheme(ck, S, RID):
     gnf = S.m["generateRotatedFileName"]
     frf = S.m["findRotatedFiles"]
     wt = [(t, a, n) for t, a, n in pattern_templates(gnf) if "%1" in t]
+    by_eval = False
+    if len(wt) != 2:
+        # the name is not instantiated from a template: recover what the function returns piece by piece (concatenation, a list of
+        # parts joined by a separator, ...)
+        from engine.strabs import StrEval, render, dedupe
+        ev = StrEval(F, gnf).run()
+        alts = dedupe([alt for r in ev.returns for alt in r])
+        wt = []
+        for alt in alts:
+            # <directory>/<name>: only the name is the scheme
+            cut = max([i for i, p_ in enumerate(alt) if p_[0] == "c" and "/" in p_[1]] or [-1])
+            if cut >= 0:
+                tail = alt[cut][1].rsplit("/", 1)[1]
+                alt = ([("c", tail)] if tail else []) + list(alt[cut + 1:])
+            t, holes = render(alt)
+            wt.append((t, [h[1] for h in holes], gnf.body))
+        by_eval = True
     ck.require(len(wt) == 2, "generateRotatedFileName: expected two name templates, found %d" % len(wt))
 
     def role_of(fn, a):
@@ -101,6 +118,8 @@ def name_scheme(ck, S, RID):
         fn = OWNER.get(id(a), fn)
         if is_call(a, "QRegularExpression::escape"):
             a = deref_local(fn, a["args"][0])
+        if is_call(a, ("QString::number", "QByteArray::number")) and a.get("args"):
+            a = deref_local(fn, skip_copies(a["args"][0]))
         if is_call(a, "QFileInfo::completeBaseName"):
             return "base"
         if is_call(a, "QFileInfo::suffix"):
@@ -156,15 +175,25 @@ def name_scheme(ck, S, RID):
                 toks.append("!" + part)
         return toks
     wtoks = sorted((tokens_writer(t, a, gnf) for t, a, n in wt), key=len)
+    # the tokens above read a chain of .arg() calls as one substitution pass; that is what the chain does only when nothing substituted
+    # early can itself contain a placeholder
+    seen_ids, nch = set(), 0
+    for fn in [gnf, fi, frf] + list(S.m.values()):
+        if fn.id not in seen_ids:
+            seen_ids.add(fn.id)
+            nch += single_pass(ck, fn, RID)
+    ck.notes.append("%d QString::arg chains examined in the name writer and the two name readers" % nch)
     want = [["base", ".", "date", ".", "index"], ["base", ".", "date", ".", "index", ".", "suffix"]]
     # the active name may be split at its last dot (completeBaseName + suffix) or at its first (baseName + completeSuffix): either is a
     # scheme, as long as writer and readers use the same one (compared exactly below)
     alt = [[{"base": "base(baseName)", "suffix": "suffix(completeSuffix)"}.get(t, t) for t in v] for v in want]
-    ck.ob(RID, sitestr(gnf), wtoks in (want, alt), "rotated name = base.date.index[.suffix] with date yyyy-MM-dd" if wtoks in (want, alt) else "rotated name templates are %s" % wtoks, key="generateRotatedFileName|scheme")
+    unkw = any(t.startswith("?") for v in wtoks for t in v)
+    ck.ob(RID, sitestr(gnf), None if unkw else wtoks in (want, alt), "rotated name = base.date.index[.suffix] with date yyyy-MM-dd" if wtoks in (want, alt) else "rotated name templates are %s" % wtoks, key="generateRotatedFileName|scheme")
     for fn, nm in ((fi, "findNextIndexForDate"), (frf, "findRotatedFiles")):
         tp = [x for x in regex_patterns(F, fn) if x[0].startswith("^") or "\\d" in x[0]]
         rtoks = sorted((tokens_reader(t, a, fn) for t, a, n in tp), key=len)
-        ck.ob(RID, sitestr(fn), rtoks == wtoks, "%s reads exactly the names generateRotatedFileName writes (both variants)" % nm if rtoks == wtoks else
+        unk_ = any(isinstance(t, str) and t.startswith("?") for v in rtoks + wtoks for t in v)
+        ck.ob(RID, sitestr(fn), None if unk_ and rtoks != wtoks else rtoks == wtoks, "%s reads exactly the names generateRotatedFileName writes (both variants)" % nm if rtoks == wtoks else
               "%s reads %s but names are written as %s" % (nm, rtoks, wtoks), key="%s|scheme-mismatch" % nm)
     # variant selection by suffix.isEmpty() in all three: the shorter template under isEmpty() == true
     for fn, nm in ((gnf, "generateRotatedFileName"), (fi, "findNextIndexForDate"), (frf, "findRotatedFiles")):
